@@ -317,10 +317,13 @@ def describe(run):
 
 
 # -------------------------------------------------------------------- spaces
-def make_space(name, kind, n, preempt, crashes, seed, cap=None):
+def make_space(name, kind, n, preempt, crashes, seed, cap=None, neth=2,
+               nslot=3):
     dom = domains(seed)
+    dom = dict(eth=dom["eth"][:neth], slot=dom["slot"][:nslot])
     params = dict(kind=kind, n=n, preempt=preempt, crashes=crashes,
-                  seed=seed, eth=dom["eth"], slot=dom["slot"])
+                  seed=seed, neth=neth, nslot=nslot, eth=dom["eth"],
+                  slot=dom["slot"])
 
     def factory():
         if kind == "restart":     # process 0 restarts once, the others not
@@ -336,16 +339,19 @@ def make_space(name, kind, n, preempt, crashes, seed, cap=None):
 
 def space_from_params(name, p):
     return make_space(name, p["kind"], p["n"], p["preempt"], p["crashes"],
-                      p["seed"])
+                      p["seed"], neth=p.get("neth", 2),
+                      nslot=p.get("nslot", 3))
 
 
 def spaces(ctx):
     s = ctx.seed
     if ctx.quick:
         sp = [make_space("full-2p-preempt2", "full", 2, 2, 0, s),
-              make_space("restart-2p-preempt2", "restart", 2, 2, 0, s),
+              make_space("restart-2p-preempt2-small", "restart", 2, 2, 0, s,
+                         neth=1, nslot=2),
               make_space("fmmu-2p-complete", "fmmu", 2, None, 0, s),
-              make_space("fmmu-3p-complete", "fmmu", 3, None, 0, s)]
+              make_space("fmmu-3p-complete-2slots", "fmmu", 3, None, 0, s,
+                         nslot=2)]
     else:
         sp = [make_space("full-2p-complete-crash1", "full", 2, None, 1, s),
               make_space("restart-2p-complete", "restart", 2, None, 0, s),
